@@ -7,7 +7,7 @@ NOTES = ('Technique family: machine-checked proof in Lean 4. See DESIGN.md. Ever
          '530162f, dd96fb5, a7b9e52, f840eca, 99f909c, fa487bb, 34f0fd3 (cache key carries the configuration), c43535a '
          '(gauss_x_quadrature_scheme, even degrees); recorded known findings: C05 gauss_log 15/31 tables, C09 seam pair on '
          'one piece, C04 evaluate_exact loses positivity far from the element at short times, C19 grading runs away on '
-         'strongly unequal initial time slabs.')
+         'strongly unequal initial time slabs, C13 loss of definiteness beyond aspect 3e8.')
 NOT_APPLICABLE = []
 _PENDING = ['C01', 'C02', 'C03', 'C04', 'C05', 'C06', 'C07', 'C08', 'C09', 'C10', 'C11', 'C12', 'C14', 'C16', 'C17',
             'C18', 'C19', 'C20']
@@ -295,6 +295,34 @@ _ADD = {
                 'tests, trials, configuration text), operators that differ in configuration never share a file '
                 '(cache_transparent_across_configs); the unrepaired key is kept with kernel-checked negation witnesses.'),
 }
+_ADD2 = {
+    'C03': dict(technique='; ErrorEstimator.residual and the assembly slice of example.py regenerated from source (translate/slrest.py) with '
+                'orthogonality proved for the generated residual against the generated system (Props/SLRestResidual.lean)'),
+    'C04': dict(technique='; evaluate_exact, potential, the vector routines and all of bilform_matrix regenerated from source and proved equal to '
+                'the models (Props/SLRestTie.lean)'),
+    'C07': dict(technique='; evaluate_exact, potential, evaluate_vector regenerated from source and proved equal to the model (Props/SLRestTie.lean)'),
+    'C17': dict(technique='; all of bilform_matrix (defaults, threshold, key text, load/save, serial/pool) regenerated from source and proved equal '
+                'to the assembly model (Props/SLRestTie.lean gen_bilform_matrix_*), generated twins incl. cache histories'),
+    'C16': dict(technique='; src/initial_mesh.py regenerated from source (translate/quadtreegen.py); tie theorems for vertex_from_coords, the '
+                'boundary scan, element shapes and shipped meshes; refine only relative to RefineSim (not proved) + generated twins on every request',
+                text=' The tie of the regenerated refine to the hand model is PARTIAL: Props/QuadtreeTie.lean proves the loop structure of '
+                'refine_msh_bdr / uniform_refine and the C16 results for the generated functions relative to RefineSim (one generated refine '
+                'simulates one model refine under a coherence invariant of the dictionaries), which is not established; it is covered by generated '
+                'twins on every request and kernel-evaluated runs.'),
+    'C09': dict(technique='; the logic of src/error_estimator.py regenerated from source (translate/estimatorgen.py) and proved equal to the model '
+                '(Props/EstimatorTie.lean)', text=' space_patch_spec_full: the complete case split over all neighbouring pairs (definition, or '
+                'same-piece seam pair = complementary arc, finding F5), also for the generated code.'),
+    'C14': dict(technique='; src/norms.py regenerated from source (translate/normsgen.py) and proved equal to the model (Props/NormsTie.lean); '
+                'H^{1/2} rule value = double integral for polynomial data (Props/C14Integral.lean, Mathlib interval integrals)'),
+    'C08': dict(technique='; src/initial_potential.py regenerated from source (translate/initpotgen.py) and proved equal to the model '
+                '(Props/InitPotTie.lean); problems.py closed forms proved to be the heat-kernel potentials of the generated u0 (Props/C03Problems.lean)'),
+    'C20': dict(text=' The model solve is complete (Props/C20Solve.lean: det != 0 <=> solved uniquely); both estimator files regenerated from '
+                'source (translate/estimgen.py) and proved equal to the model (Props/EstimTie.lean).'),
+    'C18': dict(technique='; src/parametrization.py regenerated from source (translate/paramgen.py) and proved equal to the model '
+                '(Props/ParamTie.lean, ParamTieCircle.lean)'),
+}
 for _c in CHECKS:
     for _k, _v in _ADD.get(_c['id'], {}).items():
+        _c[_k] = _c[_k] + _v
+    for _k, _v in _ADD2.get(_c['id'], {}).items():
         _c[_k] = _c[_k] + _v
